@@ -56,6 +56,18 @@ PROPS = {
                 text="Real client and server with a wire monitor under every underlying Write; random and directed bridge seeds (tables {0}, {1448}, {4}, {34}, {1428}, {1275,0}), directed application write sizes putting the burst tail at target-23..target+2, all IAT modes and both bias settings; oracle from an independently derived table: burst length obeys the padding rule for some target, IAT writes <= 1448, paranoid writes are non-zero table values (1448 accepted when the table contains 0), client bursts checked against the server's table once it has delivered server payload; every Write terminates, no panic.",
                 note="Trusted: simulator, reference DRBG/table derivation. The all-pairs arithmetic of the quantifier is sampled through the API, not enumerated.",
                 technique=TECH + "wire-size monitor against an independently derived seeded table"),
+    "C13": dict(engine="wire", quick=40, thorough=600, level="exploration", design="DESIGN.md section 4, C13",
+                text="obfs3 real<->real, real client<->reference server and reference client<->real server with extreme UniformDH private keys on either side (0, 1, 2, all-ones even/odd), X or p-X from the reference, padding 0..4097 per phase incl. extremes, all write plans, read sizes and chunkings (magic straddling reads, data coalesced behind it); rejection runs: padding of 8195..20000 bytes with or without a magic must fail the first Read with nothing delivered and the conn closed, while exactly 8194 (and just below) must be accepted; oracle: stream-prefix model plus completeness after 10 quiet virtual minutes, reference decrypts everything.",
+                note="Trusted: simulator, the independent obfs3/UniformDH reference (sim/ref/obfsref, math/big). Shared-secret agreement for X / p-X is established through two-role interop, not algebraically.",
+                technique=TECH + "two-party interop against an independent reference, seeded segmentation, edge-entropy injection"),
+    "C14": dict(engine="wire", quick=40, thorough=600, level="exploration", design="DESIGN.md section 4, C14",
+                text="obfs2 real<->real and both real/reference role pairings with reference padding 0..8192 incl. extremes, all write plans and chunkings; rejection runs with every single-bit corruption of the magic and PADLEN 8193 .. 2^32-1 (must fail Dial/WrapConn) and PADLEN 8192 (must be accepted); the reference parses the real side's seed/magic/padlen and decrypts its stream byte-exactly.",
+                note="Trusted: simulator, the independent obfs2 reference (sim/ref/obfsref).",
+                technique=TECH + "two-party interop against an independent reference, seeded segmentation, malformed-handshake injection"),
+    "C17": dict(engine="wire", quick=30, thorough=600, level="exploration", design="DESIGN.md section 4, C17",
+                text="A step-by-step reference SOCKS5 client (IPv4 / IPv6 incl. v4-mapped / domains of 1..255 arbitrary bytes, any port, argument maps with escaped ';' '=' '\\', 8-bit bytes, repeated keys, every username/password spill point) under all segmentations with pauses inside the 5 s budget, plus 19 malformed variants (bad versions, nmethods 0, no acceptable method, bad auth version, ulen/plen 0, bad escapes, empty key, key without value, trailing ';', unknown atyp, zero-length domain, BIND/UDP, non-zero RSV, pipelined trailing bytes, truncation, silence > 5 s); oracle: exact Target/Args for conforming exchanges, error plus (nothing | the stage's RFC failure reply) for malformed ones, deadline enforced and disarmed.",
+                note="Trusted: simulator, the strict pt-spec argument encoder in the harness. IPv6 targets are compared as addresses (net.IP.Equal), domain targets byte for byte.",
+                technique=TECH + "reference client under seeded segmentation and malformed-message injection on a virtual clock"),
 }
 
 ENGINES = {
